@@ -55,6 +55,7 @@ type BackendScript struct {
 	WriteSeg   []int           // response body segmentation (sizes); nil = one write per frame
 	FlushEach  bool
 	EmptyWrites bool
+	OneWrite   bool            // hand the whole response body (all frames and the end frame) to one segWriter pass
 	CutAt      int             // if >0: stop writing the response body after this many bytes and return
 	Panic      any
 	RespondFirst bool          // write the response before reading the request (streams)
@@ -570,9 +571,23 @@ type segWriter struct {
 	cut     int // remaining bytes allowed (-1 = unlimited)
 	errs    *[]string
 	stopped bool
+	hold    bool   // collect everything and write it in one segmented pass at the end
+	pending []byte
+}
+
+func (s *segWriter) finish() {
+	if s.hold {
+		s.hold = false
+		s.write(s.pending)
+		s.pending = nil
+	}
 }
 
 func (s *segWriter) write(p []byte) {
+	if s.hold {
+		s.pending = append(s.pending, p...)
+		return
+	}
 	for len(p) > 0 && !s.stopped {
 		n := len(p)
 		if s.idx < len(s.seg) {
@@ -671,6 +686,8 @@ func (b *Backend) respond(w http.ResponseWriter, r *http.Request) {
 	if s.CutAt > 0 {
 		sw.cut = s.CutAt
 	}
+	sw.hold = s.OneWrite
+	defer sw.finish()
 	if s.Bare != nil {
 		if s.Bare.CT != "" {
 			h.Set("Content-Type", s.Bare.CT)
